@@ -885,6 +885,9 @@ def run(index: RepoIndex, rep) -> None:
               'the YAML factory does not chain the listed transition functions',
               'yaml transitions chained')
 
+    # every configured part reaches the composite, as a list it can iterate at every step
+    from .c17 import composite_parts
+    composite_parts(index, rep, 'C12.R4')
     # components obtained by name keep every accepted parameter (zero values included)
     sk = index.func('gym_gridverse/utils/functions.py', 'select_kwargs')
     from .c17 import select_kwargs_ok
